@@ -45,6 +45,10 @@ DOC_LINK = {
     },
 }
 
+# the smallest documents: ONE operation (with a parameter that has an example / without any parameter)
+DOC_ONE_A = {"openapi": "3.0.2", "info": {"title": "t", "version": "1"}, "paths": {"/a": copy.deepcopy(DOC_UNIT2["paths"]["/a"])}}
+DOC_ONE_B = {"openapi": "3.0.2", "info": {"title": "t", "version": "1"}, "paths": {"/b": {"get": {"responses": OK}}}}
+
 # a defect of the document itself: one path item whose path-level parameters hold a dangling reference; the error has a
 # path but no method (no scenario to attach it to) and sits before / between / after healthy operations
 _BROKEN_ITEM = {"parameters": [{"$ref": "#/components/parameters/Missing"}], "get": {"responses": OK}}
@@ -54,6 +58,16 @@ def _with_broken(position: int) -> dict:
     doc = copy.deepcopy(DOC_UNIT2)
     paths = list(doc["paths"].items())
     paths.insert(position, ("/z", copy.deepcopy(_BROKEN_ITEM)))
+    doc["paths"] = dict(paths)
+    return doc
+
+
+def _with_broken_operation(position: int) -> dict:
+    """The same dangling reference inside ONE OPERATION's own parameters: this error has a path AND a method, so the engine
+    announces a scenario of its own for it (ScenarioStarted / NonFatalError / ScenarioFinished(ERROR) put by `on_error`)."""
+    doc = copy.deepcopy(DOC_UNIT2)
+    paths = list(doc["paths"].items())
+    paths.insert(position, ("/z", {"get": {"parameters": [{"$ref": "#/components/parameters/Missing"}], "responses": OK}}))
     doc["paths"] = dict(paths)
     return doc
 
@@ -70,16 +84,35 @@ def _with_header_examples(values: list[str]) -> dict:
 _BAD = "a\nb"
 BROKEN_DOCS = {"unit2_broken_first": _with_broken(0), "unit2_broken_mid": _with_broken(1), "unit2_broken_last": _with_broken(2),
                "hdr_example_bad_first": _with_header_examples([_BAD, "ok"]), "hdr_example_bad_mid": _with_header_examples(["ok", _BAD, "fine"]),
-               "hdr_example_bad_last": _with_header_examples(["ok", _BAD]), "hdr_example_bad_only": _with_header_examples([_BAD])}
-DOCS = {"unit3": DOC_UNIT3, "unit2": DOC_UNIT2, "link": DOC_LINK, **BROKEN_DOCS}
+               "hdr_example_bad_last": _with_header_examples(["ok", _BAD]), "hdr_example_bad_only": _with_header_examples([_BAD]),
+               "unit2_opbroken_mid": _with_broken_operation(1)}
+DOCS = {"unit3": DOC_UNIT3, "unit2": DOC_UNIT2, "link": DOC_LINK, "one_a": DOC_ONE_A, "one_b": DOC_ONE_B, **BROKEN_DOCS}
 
 
 def make_handler(behaviour: str) -> Callable[[], httpseam.Handler]:
     """API behaviour alphabet: which operation answers 500 (a failing `not_a_server_error`)."""
 
     def factory() -> httpseam.Handler:
+        seen: dict[str, int] = {}  # requests per path within this execution (a fresh handler per execution)
+
         def handler(ex: httpseam.Exchange) -> tuple:
             path = ex.path
+            seen[path] = seen.get(path, 0) + 1
+            if behaviour.startswith("nth:"):
+                # only the n-th request to the path fails (n=1: the first response fails, every later one succeeds)
+                _, target, n = behaviour.split(":")
+                if path == target and seen[path] == int(n):
+                    return httpseam.json_response(500, {})
+            if behaviour.startswith("even:") and path == behaviour[5:] and seen[path] % 2 == 0:
+                return httpseam.json_response(500, {})  # every second response fails
+            if behaviour.startswith("neg:") and path == behaviour[4:] and any(k == "q" and v.startswith("-") for k, v in ex.query):
+                return httpseam.json_response(500, {})  # fails for one region of the input only (a negative number)
+            if behaviour.startswith("noquery:") and path == behaviour[8:] and not ex.query:
+                return httpseam.json_response(500, {})  # fails for the boundary input only (optional parameter left out)
+            if behaviour == "fail_linked_user" and path == "/users/7":
+                return httpseam.json_response(500, {})  # reachable through the link only (the id the API handed out): stateful phase
+            if behaviour == "bad_body" and path == "/users" and ex.method == "POST":
+                return httpseam.json_response(201, [7])  # documented status, body violates the documented schema
             if behaviour == "all500":
                 return httpseam.json_response(500, {})
             if behaviour.startswith("fail:") and path == behaviour[5:]:
@@ -98,6 +131,23 @@ def make_handler(behaviour: str) -> Callable[[], httpseam.Handler]:
         return handler
 
     return factory
+
+
+def violating_paths(behaviour: str) -> list[str]:
+    """Path prefixes on which the behaviour makes a check fail (independent of the engine: read off the script above)."""
+    for prefix in ("fail:", "nth:", "even:", "neg:", "noquery:", "two_kinds:"):
+        if behaviour.startswith(prefix):
+            return [behaviour.split(":")[1]]
+    return {"all500": ["/"], "fail_get_user": ["/users/"], "fail_linked_user": ["/users/7"], "bad_body": ["/users"]}.get(behaviour, [])
+
+
+def is_violating(behaviour: str, exchange: httpseam.Exchange) -> bool:
+    """Did the scripted API answer this request with something an enabled check rejects?"""
+    if exchange.status is None:
+        return False
+    if exchange.status >= 500:
+        return True
+    return behaviour == "bad_body" and exchange.path == "/users" and exchange.method == "POST" and exchange.status == 201
 
 
 class FaultState:
@@ -160,8 +210,17 @@ def build_body(item: dict) -> tuple[Callable[[sched.Scheduler], engine_sched.Sch
             from schemathesis.specs.openapi.checks import status_code_conformance
 
             checks = [*checks, status_code_conformance]
+        if item.get("extra_checks") == "schema":
+            from schemathesis.specs.openapi.checks import response_schema_conformance
+
+            checks = [*checks, response_schema_conformance]
+        modes = None
+        if item.get("modes"):
+            from schemathesis.generation import GenerationMode
+
+            modes = [GenerationMode[m.upper()] for m in item["modes"]]
         return engine.make_config(
-            phases=item["phases"], workers=item["workers"], max_examples=item.get("max_examples", 1),
+            modes=modes, phases=item["phases"], workers=item["workers"], max_examples=item.get("max_examples", 1),
             max_failures=item.get("max_failures"), continue_on_failure=item.get("cof", False),
             unique_inputs=item.get("unique", False), checks=checks, seed=item.get("seed", 1),
             stateful_step_count=item.get("steps", 2),
